@@ -1470,7 +1470,7 @@ class AggregateFunction(Function):
     @builder
     def filter(self, *filters: Any) -> "AnalyticFunction":
         self._include_filter = True
-        self._filters += filters
+        self._filters = [*self._filters, *filters]
 
     def get_filter_sql(self, **kwargs: Any) -> str:
         if self._include_filter:
@@ -1501,12 +1501,12 @@ class AnalyticFunction(AggregateFunction):
     @builder
     def over(self, *terms: Any) -> "AnalyticFunction":
         self._include_over = True
-        self._partition += terms
+        self._partition = [*self._partition, *terms]
 
     @builder
     def orderby(self, *terms: Any, **kwargs: Any) -> "AnalyticFunction":
         self._include_over = True
-        self._orderbys += [(term, kwargs.get("order")) for term in terms]
+        self._orderbys = self._orderbys + [(term, kwargs.get("order")) for term in terms]
 
     def _orderby_field(self, field: Field, orient: Optional[Order], **kwargs: Any) -> str:
         if orient is None:
